@@ -90,6 +90,7 @@ class Locals(object):
         if a.kwarg:
             self.params.add(a.kwarg.arg)
         self._bind = {}
+        self._value = {}
         counts = {}
         from .astutil import stmts_of
         for st in stmts_of(fnode):
@@ -108,10 +109,19 @@ class Locals(object):
             for h in getattr(st, 'handlers', None) or []:
                 if h.name:
                     counts[h.name] = counts.get(h.name, 0) + 2
-            if isinstance(st, ast.Assign) and len([t for t in st.targets if isinstance(t, ast.Name)]) >= 1:
+            if isinstance(st, ast.Assign):
                 for t in st.targets:
                     if isinstance(t, ast.Name):
                         self._bind.setdefault(t.id, []).append(st)
+                        self._value[(id(st), t.id)] = st.value
+                    elif isinstance(t, (ast.Tuple, ast.List)) and isinstance(st.value, (ast.Tuple, ast.List)) and \
+                            len(t.elts) == len(st.value.elts) and not any(isinstance(e, ast.Starred) for e in t.elts + st.value.elts):
+                        # ``a, b = x, y``: the right-hand sides are all evaluated before any target is bound
+                        tn = set(e.id for e in t.elts if isinstance(e, ast.Name))
+                        for e, v in zip(t.elts, st.value.elts):
+                            if isinstance(e, ast.Name) and not (tn & set(n.id for n in ast.walk(st.value) if isinstance(n, ast.Name))):
+                                self._bind.setdefault(e.id, []).append(st)
+                                self._value[(id(st), e.id)] = v
         # locals bound only by plain ``x = <expr>`` statements (possibly several: one per branch / handler)
         self.defs = dict((k, v) for k, v in self._bind.items() if counts.get(k) == len(v) and k not in self.params)
         self.single = dict((k, v[0]) for k, v in self.defs.items() if len(v) == 1)
@@ -136,7 +146,7 @@ class Locals(object):
             if len(reaching) != 1 or (found is not None and reaching[0] is not found):
                 return None
             found = reaching[0]
-            val = found.value
+            val = self._value[(id(found), name)]
             if isinstance(val, (ast.Lambda, ast.Yield, ast.YieldFrom, ast.Await, ast.NamedExpr)):
                 return None
             ids = cfg.nodes_of(found)
@@ -149,7 +159,7 @@ class Locals(object):
     def value_at(self, name, nodes):
         """The expression local ``name`` stands for at all of the CFG ``nodes`` (or None)."""
         d = self.def_at(name, nodes)
-        return d.value if d is not None else None
+        return self._value[(id(d), name)] if d is not None else None
 
     def _killed(self, val, mid):
         cfg = self.cfg
@@ -206,7 +216,7 @@ class Locals(object):
                 st = outer.def_at(n.id, nodes)
                 if st is None:
                     return n
-                v = st.value
+                v = outer._value[(id(st), n.id)]
                 if via is not None and st not in via:
                     via.append(st)
                 ids = [x for x in outer.cfg.nodes_of(st) if outer.cfg.reachable(x)]
